@@ -556,6 +556,10 @@ def just(
     if len(unparsed) == width:
         return SemPredEvalResult(True)
 
+    if not crop and len(unparsed) > width:
+        # Padding cannot shorten the text.
+        return SemPredEvalResult(False)
+
     parser = mk_parser(tree.value)
 
     unparsed_output = (
